@@ -287,7 +287,7 @@ func defsC18() []*ph.Def {
 					{Name: "build", Desc: "builds 100% of the things", Opts: []ph.OptDef{{Name: "target", Kind: ph.Str, Required: true, Desc: "what to build"}},
 						SynArgs: [][2]string{{"<file>", "input file"}, {"<out>", "output\nfile"}},
 						Cmds:    []*ph.CmdDef{{Name: "fast", Desc: "quick\nbuild", Opts: []ph.OptDef{{Name: "jobs", Kind: ph.Int, DefI: 4, Env: "VERIF_C18_JOBS"}}}}},
-					{Name: "wrap", Desc: "wrapper", Unset: true, Opts: []ph.OptDef{{Name: "wopt", Kind: ph.Bool}}},
+					{Name: "wrap", Desc: "wrapper", Unset: true, Opts: []ph.OptDef{{Name: "wopt", Kind: ph.Bool}}, Cmds: []*ph.CmdDef{{Name: "run", Desc: "below the wrapper", Opts: []ph.OptDef{{Name: "profile", Kind: ph.Str, Required: true}}}}},
 					{Name: "zz", Desc: ""},
 					{Name: "buildx", Desc: "a sibling whose name begins with another command's name"},
 				}}}
@@ -467,7 +467,7 @@ func init() {
 	}
 	register(&Check{
 		ID:        "C18",
-		QuickSecs: 300, ThoroSecs: 300,
+		QuickSecs: 900, ThoroSecs: 300,
 		Rule: "complete finite product: 12 option kinds x alias count {0,1,2} x required x environment binding x description {none, one line, two lines, text with percent signs} for the option of interest inside a three-option program (576 definitions), plus 24 command trees (every kind as inherited root option, commands with descriptions, sub-command, argument declarations, UnsetOptions wrapper, with and without help command) at every level, each also with every bound environment variable set to a text that is not a number, and the same definitions again with Help() rendered after every declaration step; " +
 			"each help text is parsed structurally (sections, entries) and checked clause by clause, and the texts reached through the help option (alone and behind options of the level that were given a value), the help command, Help() of the level's object, `help <name>` one level up and Help() of the root object after a Parse that selected the level are compared byte for byte, and Help(section, section) equals the two sections rendered alone; states = definitions x levels, transitions = help texts generated, distinct_nontrivial = distinct help texts",
 		Assume: []string{"the exact layout (padding, wrapping) is not part of the property and is not compared"},
